@@ -1500,17 +1500,18 @@ MUTANTS += [
  dict(id='F78-undo-ended-arm', props=['C15', 'C02'], expect='R-ACK-QUEUE-NOT-BEHIND-END/ack-queue/queue/',
       edits=[(MS, _QC, '\t\tselect {\n\t\tcase controlWriteCh <- msg:\n\t\t\treturn nil\n\t\tcase <-recvCtx.Done():\n\t\t\treturn recvCtx.Err()\n\t\t}\n')]),
  dict(id='F78-close-only-when-error-was-taken', props=['C15'], expect='R-ACK-QUEUE-NOT-BEHIND-END/ack-queue/',
-      edits=[(MS, '\t\t\t\tselect {\n\t\t\t\tcase controlErr <- err:\n\t\t\t\tdefault:\n\t\t\t\t}\n\t\t\t\tclose(controlEnded)\n\t\t\t\treturn\n', '\t\t\t\tselect {\n\t\t\t\tcase controlErr <- err:\n\t\t\t\t\tclose(controlEnded)\n\t\t\t\tdefault:\n\t\t\t\t}\n\t\t\t\treturn\n')]),
+      edits=[(MS, '\t\tdefer close(controlEnded)\n\t\tfor {\n\t\t\tmsgType, msg, err := readControlMessage(controlStream)\n\t\t\tif err != nil {\n\t\t\t\tselect {\n\t\t\t\tcase controlErr <- err:\n\t\t\t\tdefault:\n\t\t\t\t}\n\t\t\t\treturn\n', '\t\tfor {\n\t\t\tmsgType, msg, err := readControlMessage(controlStream)\n\t\t\tif err != nil {\n\t\t\t\tselect {\n\t\t\t\tcase controlErr <- err:\n\t\t\t\t\tclose(controlEnded)\n\t\t\t\tdefault:\n\t\t\t\t}\n\t\t\t\treturn\n')]),
  dict(id='F78-close-only-on-eof', props=['C15'], expect='R-ACK-QUEUE-NOT-BEHIND-END/ack-queue/',
-      edits=[(MS, '\t\t\t\tclose(controlEnded)\n\t\t\t\treturn\n', '\t\t\t\tif errors.Is(err, io.EOF) {\n\t\t\t\t\tclose(controlEnded)\n\t\t\t\t}\n\t\t\t\treturn\n')]),
+      edits=[(MS, '\t\tdefer close(controlEnded)\n\t\tfor {\n\t\t\tmsgType, msg, err := readControlMessage(controlStream)\n\t\t\tif err != nil {\n\t\t\t\tselect {\n\t\t\t\tcase controlErr <- err:\n\t\t\t\tdefault:\n\t\t\t\t}\n\t\t\t\treturn\n', '\t\tfor {\n\t\t\tmsgType, msg, err := readControlMessage(controlStream)\n\t\t\tif err != nil {\n\t\t\t\tselect {\n\t\t\t\tcase controlErr <- err:\n\t\t\t\tdefault:\n\t\t\t\t}\n\t\t\t\tif errors.Is(err, io.EOF) {\n\t\t\t\t\tclose(controlEnded)\n\t\t\t\t}\n\t\t\t\treturn\n')]),
  dict(id='F78-finalize-sends-directly', props=['C15', 'C02'], expect='R-ACK-QUEUE-NOT-BEHIND-END/ack-queue/queue/transfer.RecvManifestMultiStream$finalizeFile',
       edits=[(MS, '\t\t_ = queueControl(controlMsg{done: &FileDone{\n\t\t\tStreamID: state.key,\n\t\t\tOK:       ok,\n\t\t\tErrMsg:   errMsg,\n\t\t}})\n', '\t\tselect {\n\t\tcase controlWriteCh <- controlMsg{done: &FileDone{\n\t\t\tStreamID: state.key,\n\t\t\tOK:       ok,\n\t\t\tErrMsg:   errMsg,\n\t\t}}:\n\t\tcase <-recvCtx.Done():\n\t\t}\n')]),
  dict(id='F78-benign-no-first-attempt', props=['C15', 'C02', 'C03', 'C01'], expect='SILENT',
       edits=[(MS, '\t\tselect {\n\t\tcase controlWriteCh <- msg:\n\t\t\treturn nil\n\t\tdefault:\n\t\t}\n\t\tselect {\n\t\tcase controlWriteCh <- msg:\n\t\t\treturn nil\n\t\tcase <-recvCtx.Done():', '\t\tselect {\n\t\tcase controlWriteCh <- msg:\n\t\t\treturn nil\n\t\tcase <-recvCtx.Done():')]),
  dict(id='F78-benign-ended-arm-returns-an-error', props=['C15', 'C02', 'C03', 'C01'], expect='SILENT',
       edits=[(MS, '\t\tcase <-controlEnded:\n\t\t\treturn nil\n\t\t}\n', '\t\tcase <-controlEnded:\n\t\t\treturn io.ErrClosedPipe\n\t\t}\n')]),
- dict(id='R11-benign-ack-write-error-not-fatal', props=['C15', 'C02', 'C03', 'C01'], expect='SILENT',
-      edits=[(MS, '\t\t}\n\t}\n\tgo func() {\n\t\tfor {\n\t\t\tselect {\n\t\t\tcase <-recvCtx.Done():\n\t\t\t\treturn\n\t\t\tcase msg := <-controlWriteCh:\n\t\t\t\tif msg.done != nil {\n\t\t\t\t\tif err := writeFileDone(controlStream, *msg.done); err != nil {\n\t\t\t\t\t\tsetRecvErr(err)\n\t\t\t\t\t\treturn\n', '\t\t}\n\t}\n\tgo func() {\n\t\tfor {\n\t\t\tselect {\n\t\t\tcase <-recvCtx.Done():\n\t\t\t\treturn\n\t\t\tcase msg := <-controlWriteCh:\n\t\t\t\tif msg.done != nil {\n\t\t\t\t\tif err := writeFileDone(controlStream, *msg.done); err != nil {\n\t\t\t\t\t\treturn\n')]),
+ # benign between F78 and F83; since F83 the failed (deadline) write is what ends a receive whose reader is stuck behind the loop
+ dict(id='R11-ack-write-error-not-fatal', props=['C15'], expect='R-ACK-QUEUE-NOT-BEHIND-END/ack-queue/deadline/',
+      edits=[(MS, '\t\t\t\tif err := writeFullWithTimeout(recvCtx, controlStream, rec.Bytes(), "", "mux-ack"); err != nil {\n\t\t\t\t\tsetRecvErr(err)\n\t\t\t\t\treturn\n', '\t\t\t\tif err := writeFullWithTimeout(recvCtx, controlStream, rec.Bytes(), "", "mux-ack"); err != nil {\n\t\t\t\t\treturn\n')]),
 ]
 
 # --- false alarm corrected in round 11: the folded re-send branch is dead code since F53 ---
@@ -1605,4 +1606,14 @@ MUTANTS += [
       edits=[(DT, '\tstopClose := context.AfterFunc(ctx, func() { _ = conn.Close() })\n\tdefer stopClose()\n\n\treturn sendDumbDataWriter(stream, nameBytes, size)\n', '\treturn sendDumbDataWriter(stream, nameBytes, size)\n')]),
  dict(id='F82-benign-closes-the-stream-and-the-connection', props=['C12'], expect='SILENT',
       edits=[(DT, '\tstopClose := context.AfterFunc(ctx, func() { _ = conn.Close() })\n\tdefer stopClose()\n\n\treturn sendDumbDataWriter(stream, nameBytes, size)\n', '\tstopClose := context.AfterFunc(ctx, func() {\n\t\t_ = stream.Close()\n\t\t_ = conn.Close()\n\t})\n\tdefer stopClose()\n\n\treturn sendDumbDataWriter(stream, nameBytes, size)\n')]),
+]
+
+# --- F83 (End behind a full acknowledgement queue; acknowledgements written with a deadline) ---
+MUTANTS += [
+ dict(id='F83-undo-close-only-on-error', props=['C15', 'C02'], expect='R-ACK-QUEUE-NOT-BEHIND-END/ack-queue/',
+      edits=[(MS, '\t\tdefer close(controlEnded)\n\t\tfor {\n\t\t\tmsgType, msg, err := readControlMessage(controlStream)\n\t\t\tif err != nil {\n\t\t\t\tselect {\n\t\t\t\tcase controlErr <- err:\n\t\t\t\tdefault:\n\t\t\t\t}\n\t\t\t\treturn\n', '\t\tfor {\n\t\t\tmsgType, msg, err := readControlMessage(controlStream)\n\t\t\tif err != nil {\n\t\t\t\tselect {\n\t\t\t\tcase controlErr <- err:\n\t\t\t\tdefault:\n\t\t\t\t}\n\t\t\t\tclose(controlEnded)\n\t\t\t\treturn\n')]),
+ dict(id='F83-acks-written-without-deadline', props=['C15'], expect='R-ACK-QUEUE-NOT-BEHIND-END/ack-queue/deadline/',
+      edits=[(MS, '\t\t\t\tif err := writeFullWithTimeout(recvCtx, controlStream, rec.Bytes(), "", "mux-ack"); err != nil {', '\t\t\t\tif err := writeFullControl(controlStream, rec.Bytes(), "mux-ack"); err != nil {')]),
+ dict(id='F83-benign-close-in-front-of-both-returns', props=['C15', 'C02', 'C03'], expect='SILENT',
+      edits=[(MS, '\t\tdefer close(controlEnded)\n\t\tfor {\n\t\t\tmsgType, msg, err := readControlMessage(controlStream)\n\t\t\tif err != nil {\n\t\t\t\tselect {\n\t\t\t\tcase controlErr <- err:\n\t\t\t\tdefault:\n\t\t\t\t}\n\t\t\t\treturn\n\t\t\t}\n\t\t\tcontrolCh <- controlEvent{typ: msgType, msg: msg}\n\t\t\tif msgType == controlTypeEnd {\n\t\t\t\treturn\n', '\t\tfor {\n\t\t\tmsgType, msg, err := readControlMessage(controlStream)\n\t\t\tif err != nil {\n\t\t\t\tselect {\n\t\t\t\tcase controlErr <- err:\n\t\t\t\tdefault:\n\t\t\t\t}\n\t\t\t\tclose(controlEnded)\n\t\t\t\treturn\n\t\t\t}\n\t\t\tcontrolCh <- controlEvent{typ: msgType, msg: msg}\n\t\t\tif msgType == controlTypeEnd {\n\t\t\t\tclose(controlEnded)\n\t\t\t\treturn\n')]),
 ]
